@@ -94,6 +94,27 @@ def run_selftest(prop, seed=0, out=sys.stdout, verbose=False):
         elif verbose:
             print('   self-test %-40s %s' % (e['id'], res), file=out)
     print('   self-test corpus for %s: %s' % (prop, ', '.join('%s=%d' % kv for kv in sorted(counts.items())) or 'empty'), file=out)
+    # whole-package behaviour-preserving transformations: the check must stay silent
+    from .variants import build
+    from .__main__ import run_property
+    for kind in ('both', 'private'):
+        tmp = tempfile.mkdtemp(prefix='bistat.')
+        try:
+            build(kind, tmp)
+            buf = io.StringIO()
+            code = run_property(prop, 'quick', seed, root=tmp, write=False, out=buf)
+            if code != 0:
+                bad += 1
+                print('ANALYSIS-ERROR property=%s self-test whole-package variant "%s" (behaviour-preserving) is not silent: exit %d' % (prop, kind, code), file=out)
+                if verbose:
+                    print(buf.getvalue(), file=out)
+            else:
+                print('   self-test whole-package variant %-8s silent' % kind, file=out)
+        except Exception as e:
+            bad += 1
+            print('ANALYSIS-ERROR property=%s self-test whole-package variant "%s": %s' % (prop, kind, e), file=out)
+        finally:
+            shutil.rmtree(tmp, ignore_errors=True)
     return 2 if bad else 0
 
 
